@@ -92,6 +92,8 @@ def cases(tier, seed):
             out.append({"part": "from-od", "subs": subs, "src": src})
     for subs in ("all", "gap"):
         out.append({"part": "history", "subs": subs})
+    for subs in SUBSETS:
+        out.append({"part": "node-level", "subs": subs})
     k = seed % len(out)
     return out[k:] + out[:k]
 
@@ -319,8 +321,104 @@ def run_history(case, st):
     st.sample({"case": case, "pairs": len(cfgs) * (len(cfgs) - 1)})
 
 
+class MultiDevice:
+    """All eight PDOs of the dictionary, each a strict device."""
+
+    def __init__(self, subs, abort_cls, priors):
+        self.devs = {}
+        for i, com in enumerate(COMS):
+            self.devs[com] = StrictPdoDevice(com, com + 0x200, subs, priors[i % len(priors)], abort_cls=abort_cls)
+
+    def _dev(self, index):
+        com = index if index in self.devs else index - 0x200
+        if com not in self.devs:
+            raise KeyError(index)
+        return self.devs[com]
+
+    def upload(self, i, si):
+        return self._dev(i).upload(i, si)
+
+    def download(self, i, si, data, force_segment=False):
+        return self._dev(i).download(i, si, data, force_segment)
+
+
+def run_node_level(case, st):
+    """node.pdo / node.rpdo / node.tpdo read() and save() over all maps of a node."""
+    import canopen
+    subs = SUBSETS[case["subs"]]
+    od = mkod(subs)
+    for which in ("pdo", "rpdo", "tpdo"):
+        for priors in (("blank",), ("valid1", "blank", "valid8")):
+            dev = MultiDevice(subs, canopen.SdoAbortedError, priors)
+            net, n = mknode(od, dev)
+            st.evaluations += 1
+            st.nontrivial_n += 1
+            rc = dict(case, which=which, priors=list(priors))
+            coll = getattr(n, which)
+            try:
+                coll.read()
+                maps = list(n.rpdo.values()) + list(n.tpdo.values()) if which == "pdo" else list(coll.values())
+                want = {}
+                for k, m in enumerate(maps):
+                    com = m.com_record.od.index
+                    m.cob_id, m.enabled, m.rtr_allowed, m.trans_type = 0x200 + k * 3, bool(k % 2), bool(k % 3), (1, 254, 255)[k % 3]
+                    m.clear()
+                    mp = MAPPINGS[1 + k % 8]
+                    for (i, s, l) in mp:
+                        m.add_variable(i, s, l)
+                    want[com] = (m.cob_id, m.enabled, m.rtr_allowed, m.trans_type, [tuple(x) for x in mp])
+                for d in dev.devs.values():
+                    d.log.clear()
+                coll.save()
+            except Exception as e:  # noqa: BLE001
+                st.violation(f"C09:node-level:{which}:raises:{type(e).__name__}", rc, "all maps saved", repr(e)[:120])
+                continue
+            for com, w in want.items():
+                d = dev.devs[com]
+                if d.refused:
+                    st.violation(f"C09:node-level:{which}:device-refused:{d.refused[0][3]}", dict(rc, com=com), "no out-of-order write", d.refused[0])
+                for pr in ordering_problems(d, com, com + 0x200, w[1], len(w[4]))[:1]:
+                    st.violation(f"C09:node-level:{which}:order:{pr}", dict(rc, com=com), "safe order", [(hex(i), s_, x.hex()) for i, s_, x, v, c in d.log])
+            for com, d in dev.devs.items():
+                if com not in want and d.log:
+                    st.violation(f"C09:node-level:{which}:wrote-other-direction", dict(rc, com=com), "untouched", len(d.log))
+            net2, n2 = mknode(od, dev)
+            getattr(n2, which).read()
+            maps2 = list(n2.rpdo.values()) + list(n2.tpdo.values()) if which == "pdo" else list(getattr(n2, which).values())
+            got = {m.com_record.od.index: (m.cob_id, m.enabled, m.rtr_allowed, m.trans_type, [(v.index, v.subindex, v.length) for v in m.map])
+                   for m in maps2}
+            if got != want:
+                diff = {hex(k): (want[k], got.get(k)) for k in want if got.get(k) != want[k]}
+                st.violation(f"C09:node-level:{which}:readback-differs", rc, "same configuration for every map", diff)
+            else:
+                st.outcome("node-level ok")
+    # RemoteNode.load_configuration(): PDO configuration from the dictionary is applied through read(from_od)+save()
+    vals = {}
+    for k, com in enumerate(COMS):
+        vals[(com, 1)] = (0x300 + k) | (0x80000000 if k % 2 else 0)
+        vals[(com, 2)] = 255
+        vals[(com + 0x200, 0)] = 1
+        vals[(com + 0x200, 1)] = OBJS[k % 3][0] << 16 | OBJS[k % 3][2]
+    od2 = mkod(subs, values=vals)
+    dev = MultiDevice(subs, canopen.SdoAbortedError, ("valid1", "blank"))
+    net, n = mknode(od2, dev)
+    st.evaluations += 1
+    try:
+        n.load_configuration()
+        for k, com in enumerate(COMS):
+            d = dev.devs[com]
+            final = struct.unpack("<L", d.store[(com, 1)])[0] & 0xDFFFFFFF
+            if final != vals[(com, 1)] or struct.unpack("<L", d.store[(com + 0x200, 1)])[0] != vals[(com + 0x200, 1)] or d.refused:
+                st.violation("C09:load-configuration", dict(case, com=com), hex(vals[(com, 1)]), f"{final:#x} refused={d.refused[:1]}")
+                break
+        else:
+            st.outcome("load_configuration ok")
+    except Exception as e:  # noqa: BLE001
+        st.violation(f"C09:load-configuration:raises:{type(e).__name__}", case, "configuration loaded", repr(e)[:120])
+
+
 def run_case(case, st):
-    {"live": run_live, "from-od": run_from_od, "history": run_history}[case["part"]](case, st)
+    {"live": run_live, "from-od": run_from_od, "history": run_history, "node-level": run_node_level}[case["part"]](case, st)
 
 
 def finish(st, tier):
